@@ -72,6 +72,10 @@ func (h *DirHandler) SentCount() int    { return countFiles(path.Join(h.MBoxPath
 func (h *DirHandler) ArchiveCount() int { return countFiles(path.Join(h.MBoxPath, DIR_ARCHIVE)) }
 
 func (h *DirHandler) AddOut(msg *fbb.Message) error {
+	if !validMID(msg.MID()) {
+		return fmt.Errorf("Unable to add message: invalid MID %q", msg.MID())
+	}
+
 	data, err := msg.Bytes()
 	if err != nil {
 		return err
@@ -83,6 +87,9 @@ func (h *DirHandler) AddOut(msg *fbb.Message) error {
 func (h *DirHandler) ProcessInbound(msgs ...*fbb.Message) (err error) {
 	dir := path.Join(h.MBoxPath, DIR_INBOX)
 	for _, m := range msgs {
+		if !validMID(m.MID()) {
+			return fmt.Errorf("Unable to write received message: invalid MID %q", m.MID())
+		}
 		filename := path.Join(dir, m.MID()+Ext)
 
 		m.Header.Set("X-Unread", "true")
@@ -104,6 +111,11 @@ func (h *DirHandler) GetInboundAnswer(p fbb.Proposal) fbb.ProposalAnswer {
 		return fbb.Defer
 	}
 
+	if !validMID(p.MID()) {
+		log.Printf("Defering %q: invalid MID", p.MID())
+		return fbb.Defer
+	}
+
 	// Check if file exists
 	f, err := os.Open(path.Join(h.MBoxPath, DIR_INBOX, p.MID()+Ext))
 	if err == nil {
@@ -119,6 +131,10 @@ func (h *DirHandler) GetInboundAnswer(p fbb.Proposal) fbb.ProposalAnswer {
 }
 
 func (h *DirHandler) SetSent(MID string, rejected bool) {
+	if !validMID(MID) {
+		log.Fatalf("Unable to move %q to sent: invalid MID", MID)
+	}
+
 	oldPath := path.Join(h.MBoxPath, DIR_OUTBOX, MID+Ext)
 	newPath := path.Join(h.MBoxPath, DIR_SENT, MID+Ext)
 
@@ -189,6 +205,15 @@ func DefaultAppDir() (string, error) {
 		return "", fmt.Errorf("Unable to determine home directory: %s", err)
 	}
 	return path.Join(usr.HomeDir, ".wl2k"), nil
+}
+
+// validMID reports whether mid can be used as the base name of a message file.
+//
+// The MID of an inbound message is chosen by the remote station. It must be a single path element (no
+// separators or NUL, not "." or "..") so that the file stays inside the mailbox directory, and it must not
+// start with a dot since LoadMessageDir ignores such files.
+func validMID(mid string) bool {
+	return mid != "" && mid[0] != '.' && !strings.ContainsAny(mid, "/\\\x00")
 }
 
 func ensureDirStructure(mboxPath string) (err error) {
